@@ -65,10 +65,12 @@ ResizeHuge == IsEv("resizehuge") /\ Fails({"OutOfMemoryError"})          \* more
 PrintAt == IsEv("printat") /\ E.r = E.n + Len(E.arg) /\ Upd(WriteAt(S, E.n, E.arg))     \* returns the position after the text
 PrintPct == IsEv("printpct") /\ LET txt == E.arg \o <<37>> \o E.arg \o <<124>> IN                    \* "%s%%%s|": a literal per cent sign in between
             E.r = E.n + Len(txt) /\ Upd(WriteAt(S, E.n, txt))
+PrintNull == IsEv("printnull") /\ LET txt == E.arg \o <<60, 78, 85, 76, 76, 62, 124>> \o E.arg IN           \* "%s%$|%s" with NULL shown: a <NULL> | a
+             E.r = E.n + Len(txt) /\ Upd(WriteAt(S, E.n, txt))
 Cmp == IsEv("cmp") /\ E.r = Sign(StrCmp(S, str[E.p])) /\ E.n = (IF S = str[E.p] THEN 1 ELSE 0) /\ Upd(S)
 Del == IsEv("del") /\ Step(Without(str, E.o))
 
-Next == Reset \/ End \/ New \/ Copy \/ Assign \/ AssignO \/ Concat \/ ConcatO \/ RemOk \/ RemFail \/ Mem \/ RemOOk \/ RemOFail \/ MemO \/ ConcatIn \/ AssignIn \/ Resize \/ RemInt \/ ResizeHuge \/ PrintAt \/ PrintSelf \/ PrintPct \/ Cmp \/ Del
+Next == Reset \/ End \/ New \/ Copy \/ Assign \/ AssignO \/ Concat \/ ConcatO \/ RemOk \/ RemFail \/ Mem \/ RemOOk \/ RemOFail \/ MemO \/ ConcatIn \/ AssignIn \/ Resize \/ RemInt \/ ResizeHuge \/ PrintAt \/ PrintSelf \/ PrintPct \/ PrintNull \/ Cmp \/ Del
 Spec == Init /\ [][Next]_vars
 Accepted == LET d == TLCGet("stats").diameter IN
             /\ PrintT(<<"TRACE_MATCHED", d - 1, Len(T)>>)
